@@ -912,6 +912,7 @@ class WalletTransaction(Transaction):
             db_tx.raw = self.rawtx if self.rawtx else db_tx.raw
             db_tx.verified = self.verified
             db_tx.locktime = self.locktime
+            db_tx.version = self.version_int
             self.hdwallet._commit()
 
         assert txidn
